@@ -1,12 +1,18 @@
-(* C03 - no shm buffer is ever filled beyond its capacity, provided a LOST marker plus any single record
-   fits (the hypothesis under which get_new_shmem_buffer may put a record behind the marker without a
-   second size check); without the hypothesis the buffer overflows *)
-From Coq Require Import List Arith Bool PeanoNat NArith Lia.
+(* C03 - no shm buffer is ever filled beyond its capacity, provided (1) a LOST marker plus any single
+   record fits (get_new_shmem_buffer puts a record behind the marker without a second size check) and
+   (2) the capacity is a multiple of 8 (record_ret_stack tests 16 + argsize but advances by
+   16 + ALIGN (argsize, 8)); without either hypothesis the buffer overflows *)
+From Coq Require Import List Arith Bool PeanoNat NArith ZArith Lia.
+Require Import ZifyNat.
+Ltac Zify.zify_post_hook ::= Z.div_mod_to_equations.
 Import ListNotations.
 Require Import UV.Gen.Consts UV.C03.Model UV.C03.Lib UV.C03.Inv UV.C03.StepsR UV.C03.StepsP UV.C03.Proofs UV.C03.Lost.
 
 Definition small (c : cfg) (l : label) : Prop :=
-  match l with P_emit _ r _ => 16 + length r <= maxsize c | _ => True end.
+  match l with
+  | P_emit _ r pad _ => 16 + length r <= maxsize c /\ pad < 8 /\ pad <= length r /\ length r mod 8 = 0
+  | _ => True
+  end.
 
 Inductive reach_small (c : cfg) (nw : nat) : st -> Prop :=
 | rs_init : reach_small c nw (init nw)
@@ -23,24 +29,25 @@ Proof. unfold lostrec, enc_rec. rewrite app_length, !le_bytes_length. reflexivit
 Lemma size_upd_same s v b : length (bytes_of (upd (data s) b v b)) = length (bytes_of v).
 Proof. rewrite upd_same. reflexivity. Qed.
 
-Definition Fits (c : cfg) (s : st) : Prop := forall b, size s b <= maxsize c.
+Definition Fits (c : cfg) (s : st) : Prop := forall b, size s b <= maxsize c /\ size s b mod 8 = 0.
 
 Lemma bytes_snoc l r : length (bytes_of (l ++ [r])) = length (bytes_of l) + length r.
 Proof. unfold bytes_of. rewrite concat_app, app_length. cbn. rewrite app_nil_r. reflexivity. Qed.
 
 (* data after a step is either what it was, or empty, or explicitly bounded *)
 Lemma fits_data_cases c s s' : Fits c s ->
-  (forall b, data s' b = data s b \/ data s' b = [] \/ length (bytes_of (data s' b)) <= maxsize c) -> Fits c s'.
+  (forall b, data s' b = data s b \/ data s' b = [] \/
+             (length (bytes_of (data s' b)) <= maxsize c /\ length (bytes_of (data s' b)) mod 8 = 0)) -> Fits c s'.
 Proof.
-  intros F H b. unfold size. destruct (H b) as [->|[->|Hl]]; [apply F|cbn; lia|assumption].
+  intros F H b. unfold size. destruct (H b) as [->|[->|Hl]]; [apply F|cbn; split; [lia|reflexivity]|assumption].
 Qed.
 
 Lemma record_mmap_data s b : data (record_mmap s b) = data s.
 Proof. unfold record_mmap, copy_to_buffer. destruct (_ && _); [|reflexivity]. destruct (give b (ws s)); reflexivity. Qed.
 
-Lemma fits_take c s t idx r : Fits c s -> 16 + length r <= maxsize c -> Fits c (take s t idx r).
+Lemma fits_take c s t idx r : Fits c s -> 16 + length r <= maxsize c -> length r mod 8 = 0 -> Fits c (take s t idx r).
 Proof.
-  intros F Hr. rewrite take_eq. set (s0 := take0 s t idx).
+  intros F Hr Hm. rewrite take_eq. set (s0 := take0 s t idx).
   assert (D0 : data s0 = upd (data s) (t, idx) []).
   { unfold s0, take0. set (s3 := set_data _ _). destruct (shrink_fields s3 t idx) as (S1 & _). sp. rewrite S1. reflexivity. }
   set (s1 := if (losts s0 t =? 0)%N then s0 else marker s0 t (t, idx)).
@@ -48,31 +55,31 @@ Proof.
   apply (fits_data_cases c s); [assumption|]. intro b. rewrite A1.
   destruct (bid_eqb_spec b (t, idx)) as [->|Hne]; [rewrite !upd_same|rewrite !upd_other by assumption].
   - right. right. rewrite bytes_snoc. unfold s1. destruct (losts s0 t =? 0)%N.
-    + rewrite D0, upd_same. cbn. lia.
-    + unfold marker; sp. rewrite upd_same. cbn [bytes_of concat]. rewrite app_nil_r, lostrec_length. lia.
+    + rewrite D0, upd_same. cbn [bytes_of concat length]. split; lia.
+    + unfold marker; sp. rewrite upd_same. cbn [bytes_of concat]. rewrite app_nil_r, lostrec_length. split; lia.
   - unfold s1. destruct (losts s0 t =? 0)%N; [|unfold marker; sp; rewrite upd_other by assumption];
       rewrite D0, upd_other by assumption; left; reflexivity.
 Qed.
 
-Lemma fits_step c s l s' : Fits c s -> small c l -> step c s l = Some s' -> Fits c s'.
+Lemma fits_step c s l s' : maxsize c mod 8 = 0 -> Fits c s -> small c l -> step c s l = Some s' -> Fits c s'.
 Proof.
-  intros F Hs H. destruct l; cbn [step] in H.
+  intros Hc F Hs H. destruct l; cbn [step] in H.
   - (* P_start *) unfold p_start in H. destruct (_ && _); [|discriminate]. injection H as <-.
     apply (fits_data_cases c s _ F). intro b. sp. unfold upd. destruct (bid_eqb b (t, 1)); [auto|]. destruct (bid_eqb b (t, 0)); auto.
-  - (* P_emit *) cbn in Hs. unfold p_emit in H. destruct (p_live s t); [|discriminate].
+  - (* P_emit *) cbn [small] in Hs. destruct Hs as (Hs1 & Hs2 & Hs3 & Hs4). unfold p_emit in H. destruct (p_live s t); [|discriminate].
     assert (Hsw : forall s0, Fits c s0 -> Fits c (switch s0 t r ok)).
     { intros s0 F0. unfold switch. destruct (find_free s0 t).
       - apply fits_take; assumption.
       - destruct ok.
-        + apply fits_take; [|assumption]. apply (fits_data_cases c s0 _ F0). intro b. unfold grow; sp.
+        + apply fits_take; [|assumption|assumption]. apply (fits_data_cases c s0 _ F0). intro b. unfold grow; sp.
           unfold upd. destruct (bid_eqb b (t, nbuf s0 t)); auto.
         + intro b. apply F0. }
     destruct (curr s t) as [i|].
-    + destruct (size s (t, i) + length r <=? maxsize c) eqn:E; injection H as <-.
+    + destruct (size s (t, i) + (length r - pad) <=? maxsize c) eqn:E; injection H as <-.
       * apply Nat.leb_le in E. destruct (append_rec_fields s t i r) as (A1 & _). cbv zeta in A1.
         apply (fits_data_cases c s _ F). intro b. rewrite A1.
         destruct (bid_eqb_spec b (t, i)) as [->|Hne]; [rewrite !upd_same|rewrite !upd_other by assumption; auto].
-        right. right. rewrite bytes_snoc. exact E.
+        right. right. rewrite bytes_snoc. destruct (F (t, i)) as [F1 F2]. unfold size in *. split; lia.
       * apply Hsw. intro b. apply F.
     + injection H as <-. apply Hsw. assumption.
   - unfold p_addlost in H. destruct (p_live s t); [|discriminate]. destruct (curr s t); [discriminate|]. injection H as <-. exact F.
@@ -93,21 +100,56 @@ Proof.
     apply (fits_data_cases c s _ F). intro x. sp. unfold upd. destruct (bid_eqb x b); auto.
 Qed.
 
-Theorem buffers_fit c nw s : reach_small c nw s -> forall b, size s b <= maxsize c.
+Theorem buffers_fit c nw s : maxsize c mod 8 = 0 -> reach_small c nw s -> forall b, size s b <= maxsize c.
 Proof.
-  induction 1 as [|s l s' R IH Hs H].
-  - intro b. cbn. lia.
-  - eapply fits_step; eassumption.
+  intros Hc R.
+  assert (F : Fits c s).
+  { induction R as [|s l s' R IH Hs H].
+    - intro b. cbn. split; [lia|reflexivity].
+    - eapply fits_step; eassumption. }
+  intro b. apply F.
 Qed.
 
 (* without the hypothesis: one record per buffer, a refused allocation, then the LOST marker and the next
    record go into the same 16-byte buffer *)
 Definition overflow_trace : list label :=
-  [P_start 0; P_emit 0 (r16 1) true; P_emit 0 (r16 2) true; P_emit 0 (r16 3) false;
-   M_msg; M_msg; W_pick 0; W_write 0; W_release 0; P_emit 0 (r16 4) true].
+  [P_start 0; P_emit 0 (r16 1) 0 true; P_emit 0 (r16 2) 0 true; P_emit 0 (r16 3) 0 false;
+   M_msg; M_msg; W_pick 0; W_write 0; W_release 0; P_emit 0 (r16 4) 0 true].
 Lemma overflow_refuted :
   exists s, run {| maxsize := 16 |} (init 1) overflow_trace = Some s /\ size s (0, 0) = 32.
 Proof.
   destruct (run {| maxsize := 16 |} (init 1) overflow_trace) as [s|] eqn:E; [|vm_compute in E; discriminate].
   exists s. split; [reflexivity|]. vm_compute in E. injection E as <-. reflexivity.
+Qed.
+
+(* without hypothesis (2): capacity 20 (UFTRACE_BUFFER = 36), a record with a 4-byte argument: the size test
+   asks for 20 bytes, `size` advances by 24 *)
+Definition unaligned_trace : list label := [P_start 0; P_emit 0 (r16 1 ++ [1; 0; 0; 0; 0; 0; 0; 0]%N) 4 true].
+Lemma overflow_unaligned_refuted :
+  exists s, run {| maxsize := 20 |} (init 1) unaligned_trace = Some s /\ size s (0, 0) = 24.
+Proof.
+  destruct (run {| maxsize := 20 |} (init 1) unaligned_trace) as [s|] eqn:E; [|vm_compute in E; discriminate].
+  exists s. split; [reflexivity|]. vm_compute in E. injection E as <-. reflexivity.
+Qed.
+
+(* non-vacuity of reach_small: records of 16, 24 and 40 bytes (0, 4 and 24 bytes of arguments) in buffers of 56 *)
+Definition small_trace : list label :=
+  [P_start 0; P_emit 0 (r16 1) 0 true; P_emit 0 (r16 2 ++ [7; 0; 0; 0; 9; 9; 9; 9]%N) 4 true;
+   P_emit 0 (r16 3 ++ r16 4 ++ [1; 2; 3; 4; 5; 6; 7; 8]%N) 0 true; P_emit 0 (r16 5) 0 true].
+Fixpoint reach_small_run c nw s ls : reach_small c nw s -> Forall (small c) ls ->
+  forall s', run c s ls = Some s' -> reach_small c nw s'.
+Proof.
+  destruct ls as [|l ls]; intros R F s' H; cbn in H.
+  - injection H as <-. exact R.
+  - destruct (step c s l) as [s1|] eqn:E; [|discriminate]. inversion F; subst.
+    eapply (reach_small_run c nw s1 ls); [eapply rs_step; eassumption|assumption|exact H].
+Qed.
+Lemma small_run :
+  exists s, reach_small {| maxsize := 56 |} 1 s /\ size s (0, 0) = 40 /\ size s (0, 1) = 56 /\ curr s 0 = Some 1.
+Proof.
+  destruct (run {| maxsize := 56 |} (init 1) small_trace) as [s|] eqn:E; [|vm_compute in E; discriminate].
+  exists s. split.
+  - eapply reach_small_run; [apply rs_init| |exact E].
+    repeat constructor; cbn; lia.
+  - vm_compute in E. injection E as <-. vm_compute. repeat split; reflexivity.
 Qed.
